@@ -361,6 +361,31 @@ pub fn merge(items: &Vec<&Value>) -> Result<Value, Error> {
     )))
 }
 
+/// Structural equality in which numbers are compared by numeric value.
+///
+/// `serde_json`'s own equality distinguishes `2` from `2.0` (different
+/// JSON spellings of the same number), which is not what membership means.
+fn deep_eq(first: &Value, second: &Value) -> bool {
+    match (first, second) {
+        (Value::Number(x), Value::Number(y)) => match (x.as_i64(), y.as_i64()) {
+            (Some(x_int), Some(y_int)) => x_int == y_int,
+            _ => match (x.as_u64(), y.as_u64()) {
+                (Some(x_int), Some(y_int)) => x_int == y_int,
+                _ => x.as_f64() == y.as_f64(),
+            },
+        },
+        (Value::Array(x), Value::Array(y)) => {
+            x.len() == y.len() && x.iter().zip(y.iter()).all(|(a, b)| deep_eq(a, b))
+        }
+        (Value::Object(x), Value::Object(y)) => {
+            x.len() == y.len()
+                && x.iter()
+                    .all(|(key, a)| y.get(key).map(|b| deep_eq(a, b)).unwrap_or(false))
+        }
+        _ => first == second,
+    }
+}
+
 /// Perform containment checks with "in"
 // TODO: make this a lazy operator, since we don't need to parse things
 // later on in the list if we find something that matches early.
@@ -377,7 +402,9 @@ pub fn in_(items: &Vec<&Value>) -> Result<Value, Error> {
         // implementation is relying on broken, undefined behavior, it seems
         // okay to update that behavior to work in a more intuitive way.
         Value::Null => Ok(Value::Bool(false)),
-        Value::Array(possibles) => Ok(Value::Bool(possibles.contains(needle))),
+        Value::Array(possibles) => Ok(Value::Bool(
+            possibles.iter().any(|possible| deep_eq(possible, needle)),
+        )),
         Value::String(haystack_string) => {
             // Note: the reference implementation uses the regular old
             // String.prototype.indexOf() function to check for containment,
